@@ -114,6 +114,9 @@ func init() {
 				sc.Prop = "C06"
 				return sc
 			}
+			if i%8 == 5 {
+				return scen.GenDomainsCrawl(t) // the --domains-crawl clauses (hops reset to 0 on a match, counted otherwise)
+			}
 			return c06crawl.gen(t, i, tier)
 		}}
 	props["C05"] = &propDef{level: "exploration", rule: "one case = one generated (filter set, web site) pair: include/exclude host, string and regex filters x URL texts (absolute, upper-case, scheme-relative, userinfo, explicit port, fragment, other schemes, loopback, dot-less, archive.org) planted as seeds, redirect targets and assets, run under one seeded schedule; every request and every dial that reaches the simulated network is judged by a reference scope predicate; distinct/non-trivial as for C01", assumptions: append([]string{"the deciding power is the generator of URL texts x filters; schedules add little for this property (stated in DESIGN.md)"}, e2eAssumptions...), components: e2eComponents, quickRuns: 240, thorRuns: 8000,
